@@ -288,7 +288,9 @@ pub fn corr(seed: u64, n: u64) {
                     (ts.into_inner(), chain)
                 });
                 let (ts, chain) = match r { Outcome::Done(v) => v, _ => { stats.count("excluded.offset_lms_hang_or_panic"); continue; } };
-                let ends = match &chain { Some(v) if !v.is_empty() => format!("#{} {} {}", v.len(), hxp(v[0].start_point()), hxp(v[v.len() - 1].end_point())), _ => "#0".to_string() };
+                // the end points of the chain and, since the whole fitter is generated (session 4), every control point of every curve
+                let all = match &chain { Some(v) => { let mut a = format!(" #{}", v.len()); for c in v.iter() { let (c1, c2) = c.control_points(); a += &format!(" {} {} {} {}", hxp(c.start_point()), hxp(c1), hxp(c2), hxp(c.end_point())); } a }, None => " #0".to_string() };
+                let ends = match &chain { Some(v) if !v.is_empty() => format!("#{} {} {}{}", v.len(), hxp(v[0].start_point()), hxp(v[v.len() - 1].end_point()), all), _ => format!("#0 {} {} {} {}{}", hx(0.0), hx(0.0), hx(0.0), hx(0.0), all) };
                 let line = if use_offset { format!("C10 offset R {} {} {} {} | {}", hxc(&w), hx(d0), hx(d1), hint, ends) }
                     else { format!("C10 lms R {} #{} {} {} {} {} | #{} #{} {} {}", hxc(&w), subdivisions, hx(d0), hx(d1), hx(toff), hint, if chain.is_some() { 1 } else { 0 }, ts.len(), hxs(&ts), ends) };
                 stats.case(&line, chain.as_ref().map(|v| v.len()).unwrap_or(0) > 0);
